@@ -5,7 +5,7 @@ bound to a local that is only subscripted / .update()d / passed to ILogger.write
 alias in Action.finish is checked too.)"""
 import ast, os, sys
 REPO = os.environ.get("PYVC_REPO", "/repo")
-OWNED = {"_identification", "_globalFields"}
+OWNED = {"_identification", "_globalFields", "fields"}
 bad = []
 for fn in sorted(os.listdir(os.path.join(REPO, "eliot"))):
     if not fn.endswith(".py"):
@@ -16,7 +16,7 @@ for fn in sorted(os.listdir(os.path.join(REPO, "eliot"))):
         for ch in ast.iter_child_nodes(n):
             parents[ch] = n
     for n in ast.walk(tree):
-        if isinstance(n, ast.Attribute) and n.attr in OWNED:
+        if isinstance(n, ast.Attribute) and n.attr in OWNED and (n.attr != "fields" or (isinstance(n.value, ast.Name) and n.value.id == "self")):
             p = parents.get(n)
             ok = False
             if isinstance(p, ast.Subscript) and p.value is n:
@@ -25,8 +25,10 @@ for fn in sorted(os.listdir(os.path.join(REPO, "eliot"))):
                 ok = True           # method call on the dict
             elif isinstance(p, ast.Call) and n in p.args and isinstance(p.func, ast.Attribute) and p.func.attr == "update" and len(p.args) == 1:
                 ok = True           # other.update(<owned>) copies the items
-            elif isinstance(p, ast.Assign) and n in p.targets and isinstance(p.value, ast.Dict):
-                ok = True           # created by a dict display
+            elif isinstance(p, ast.Assign) and n in p.targets and (isinstance(p.value, ast.Dict) or (isinstance(p.value, ast.Call) and isinstance(p.value.func, ast.Name) and p.value.func.id == "dict")):
+                ok = True           # created by a dict display / dict(...)
+            elif isinstance(p, ast.Call) and p.args == [n] and isinstance(p.func, ast.Name) and p.func.id in ("set", "dict", "list", "len", "sorted"):
+                ok = True           # copied / measured, not retained
             if not ok:
                 bad.append("%s:%d %s" % (fn, n.lineno, ast.unparse(p) if p is not None else "?"))
 if bad:
